@@ -308,7 +308,7 @@ Proof.
       cbn [chain_from] in Hc. destruct Hc as [Hlo' [Hse [Hv Hr]]].
       destruct (Z.leb_spec (next_a a prev) b) as [Hle|Hgt]; cbn [app].
       * split.
-        -- cbn [chain_from eS eE eV]. repeat split; try lia; try assumption. Show. discriminate.
+        -- cbn [chain_from eS eE eV]. repeat split; try lia; try assumption. discriminate.
         -- intros q. rewrite !lk_cons. cbn [eS eE eV]. zcmp; try lia; try reflexivity; rewrite ?app_nil_r; reflexivity.
       * split; [cbn [chain_from]; repeat split; assumption|].
         intros q. rewrite !lk_cons. zcmp; try lia; rewrite ?app_nil_r; reflexivity.
@@ -320,6 +320,8 @@ Proof.
       set (prev' := Some (so_cur (pstep repaired tt e a b v prev))) in *.
       assert (Hp2 : eS e < next_a a prev -> prev = None).
       { intros Hs. destruct prev as [p|]; [|reflexivity]. unfold prev_ok, next_a in *. lia. }
+      assert (Hnb : next_a a prev <= b).
+      { destruct prev as [p|]; unfold prev_ok, next_a in *; lia. }
       destruct (Z.ltb_spec b (eE e)) as [Hbe|Hbe].
       * (* split at end: nothing after e intersects *)
         rewrite (xloop_done a b v r prev' (eE e + 1)); [|lia|lia|exact Hr].
@@ -337,3 +339,117 @@ Proof.
            zcmp; try lia; cbn [app]; rewrite !lk_cons; cbn [eS eE eV]; zminmax; rewrite ?IHl; zcmp; try lia;
              rewrite ?app_nil_r; try reflexivity.
 Qed.
+
+(* ------------------------------------------------------------------ the invariant of the repaired Insert *)
+Definition naive (ops : list (Z * Z * nat)) (q : Z) : list nat :=
+  flat_map (fun op : Z * Z * nat => let '(a, b, v) := op in if (a <=? q) && (q <=? b) then [v] else []) ops.
+
+Definition disjoint_b (a b : Z) (op : Z * Z * nat) : bool := let '(a', b', _) := op in (b' <? a) || (b <? a').
+
+Definition Inv (t : list PE) (ops : list (Z * Z * nat)) : Prop :=
+  (exists lo, chain_from lo t) /\ forall q, lk t q = naive ops q.
+
+Lemma naive_app ops1 ops2 q : naive (ops1 ++ ops2) q = naive ops1 q ++ naive ops2 q.
+Proof. unfold naive. apply flat_map_app. Qed.
+
+Lemma chain_ksorted lo t : chain_from lo t -> ksorted t /\ Forall (fun x => lo <= eE x) t.
+Proof.
+  revert lo. induction t as [|e r IH]; intros lo Hc; [split; constructor|].
+  cbn [chain_from] in Hc. destruct Hc as [H1 [H2 [_ Hr]]]. destruct (IH _ Hr) as [Hs Hall].
+  split.
+  - constructor; [exact Hs|]. rewrite Forall_forall in *. intros x Hx. specialize (Hall x Hx). lia.
+  - constructor; [lia|]. rewrite Forall_forall in *. intros x Hx. specialize (Hall x Hx). lia.
+Qed.
+
+Lemma ksorted_keys {V} (l1 l2 : list (entry V)) : map eE l1 = map eE l2 -> ksorted l1 -> ksorted l2.
+Proof.
+  unfold ksorted. revert l2. induction l1 as [|a r IH]; intros l2 Hm Hs; destruct l2 as [|b r2]; try discriminate; [constructor|].
+  cbn [map] in Hm. injection Hm as Hk Hm. inversion Hs as [|? ? Hr Hall]; subst.
+  constructor; [apply IH; assumption|].
+  rewrite Forall_forall in *. intros y Hy.
+  assert (Hin : In (eE y) (map eE r)) by (rewrite Hm; apply in_map; exact Hy).
+  apply in_map_iff in Hin. destruct Hin as [z [Hz1 Hz2]]. specialize (Hall z Hz2). lia.
+Qed.
+
+Lemma chain_split l1 : forall lo l2 k, lo <= k -> chain_from lo (l1 ++ l2) -> Forall (fun x : PE => eE x < k) l1 ->
+  exists lo2, lo2 <= k /\ chain_from lo2 l2 /\ forall X, chain_from lo2 X -> chain_from lo (l1 ++ X).
+Proof.
+  induction l1 as [|e r IH]; intros lo l2 k Hlo Hc Hall.
+  - exists lo. cbn [app] in *. split; [exact Hlo|]. split; [exact Hc|]. intros X HX. exact HX.
+  - cbn [app chain_from] in Hc. destruct Hc as [H1 [H2 [H3 Hr]]]. inversion Hall as [|? ? He Hall']; subst.
+    destruct (IH (eE e + 1) l2 k ltac:(lia) Hr Hall') as [lo2 [Hl [Hc2 Hx]]].
+    exists lo2. split; [exact Hl|]. split; [exact Hc2|]. intros X HX. cbn [app chain_from].
+    split; [exact H1|]. split; [exact H2|]. split; [exact H3|]. apply Hx, HX.
+Qed.
+
+Lemma lk_ctx (l1 l2 X : list PE) (f : Z -> list nat) k :
+  Forall (fun x => eE x < k) l1 -> (forall q, lk X q = lk l2 q ++ f q) -> (forall q, q < k -> f q = []) ->
+  forall q, lk (l1 ++ X) q = lk (l1 ++ l2) q ++ f q.
+Proof.
+  intros Hall HX Hf q. induction l1 as [|e r IH]; cbn [app]; [apply HX|].
+  inversion Hall as [|? ? He Hall']; subst. rewrite !lk_cons.
+  destruct (Z.ltb_spec (eE e) q) as [Hlt|Hge]; [apply IH, Hall'|].
+  rewrite (Hf q) by lia. rewrite app_nil_r. reflexivity.
+Qed.
+
+Lemma lk_skip (l1 l2 : list PE) k q : Forall (fun x => eE x < k) l1 -> k <= q -> lk (l1 ++ l2) q = lk l2 q.
+Proof.
+  intros Hall Hq. induction l1 as [|e r IH]; cbn [app]; [reflexivity|].
+  inversion Hall as [|? ? He Hall']; subst. rewrite lk_cons. destruct (Z.ltb_spec (eE e) q); [apply IH, Hall'|lia].
+Qed.
+
+(* generic facts about the loop, for every cfg and every store *)
+Section LoopFacts.
+  Variables (St VS : Type).
+  Variable mk1 : St -> nat -> St * VS.
+  Variable app : bool -> St -> VS -> nat -> St * VS.
+  Variable spare : VS -> bool.
+
+  Lemma istep_tree_key c st e a b v prev : eE (so_tree (istep St VS mk1 app spare c st e a b v prev)) = eE e.
+  Proof.
+    unfold istep.
+    repeat match goal with
+           | |- context [let '(_, _) := ?x in _] => destruct x
+           | |- context [if ?x then _ else _] => destruct x
+           | |- context [match ?x with Some _ => _ | None => _ end] => destruct x
+           end; reflexivity.
+  Qed.
+
+  Lemma iloop_keys c : forall es st a b v prev r' pd pv st' hz,
+    iloop St VS mk1 app spare c st es a b v prev = (r', pd, pv, st', hz) -> map eE r' = map eE es.
+  Proof.
+    induction es as [|e r IH]; intros st a b v prev r' pd pv st' hz H; cbn [iloop] in H.
+    - injection H as <- _ _ _ _. reflexivity.
+    - destruct (b <? eS e).
+      + injection H as <- _ _ _ _. reflexivity.
+      + destruct (iloop St VS mk1 app spare c (so_st (istep St VS mk1 app spare c st e a b v prev)) r a b v
+                        (Some (so_cur (istep St VS mk1 app spare c st e a b v prev)))) as [[[[r2 pd2] pv2] st2] hz2] eqn:Hrec.
+        injection H as <- _ _ _ _. cbn [map]. rewrite istep_tree_key. f_equal. eapply IH. exact Hrec.
+  Qed.
+
+  Lemma iloop_prev_some c : forall es st a b v p r' pd pv st' hz,
+    iloop St VS mk1 app spare c st es a b v (Some p) = (r', pd, pv, st', hz) -> pv <> None.
+  Proof.
+    induction es as [|e r IH]; intros st a b v p r' pd pv st' hz H; cbn [iloop] in H.
+    - injection H as _ _ <- _ _. discriminate.
+    - destruct (b <? eS e).
+      + injection H as _ _ <- _ _. discriminate.
+      + destruct (iloop St VS mk1 app spare c (so_st (istep St VS mk1 app spare c st e a b v (Some p))) r a b v
+                        (Some (so_cur (istep St VS mk1 app spare c st e a b v (Some p))))) as [[[[r2 pd2] pv2] st2] hz2] eqn:Hrec.
+        injection H as _ _ <- _ _. eapply IH. exact Hrec.
+  Qed.
+
+  (* the loop found nothing (prev stays nil) exactly when the first candidate lies beyond b *)
+  Lemma iloop_prev_none c es st a b v r' pd pv st' hz :
+    iloop St VS mk1 app spare c st es a b v None = (r', pd, pv, st', hz) ->
+    (pv = None <-> match es with [] => True | e :: _ => b < eS e end).
+  Proof.
+    intros H. destruct es as [|e r]; cbn [iloop] in H.
+    - injection H as _ _ <- _ _. tauto.
+    - destruct (Z.ltb_spec b (eS e)) as [Hlt|Hge].
+      + injection H as _ _ <- _ _. tauto.
+      + destruct (iloop St VS mk1 app spare c (so_st (istep St VS mk1 app spare c st e a b v None)) r a b v
+                        (Some (so_cur (istep St VS mk1 app spare c st e a b v None)))) as [[[[r2 pd2] pv2] st2] hz2] eqn:Hrec.
+        injection H as _ _ <- _ _. apply iloop_prev_some in Hrec. split; [intros; contradiction|lia].
+  Qed.
+End LoopFacts.
